@@ -10,14 +10,21 @@ class C14(Prop):
     ID = "C14"
     THEOREMS = ["C14_header_operation", "C14_prefix_rejected", "C14_prefix_rejected_ops", "C14_prefix_complete",
                 "C14_prefix_serves", "C14_trace_is_file", "C14_trace_is_file_multipass", "C14_refused_input", "C14_fault", "C14_fault_state",
-                "C14_last_flush_refuted", "C14_debug_split_refuted"]
+                "C14_last_flush_refuted", "C14_debug_split_refuted",
+                "C14_bb_header_operation", "C14_bb_prefix_rejected", "C14_bb_prefix_rejected_ops", "C14_bb_prefix_complete",
+                "C14_bb_prefix_serves", "C14_bb_trace_is_file", "C14_bb_trace_is_file_multipass", "C14_bb_refused_input",
+                "C14_bb_fault", "C14_bb_fault_state"]
     RULE = ("bigWig: bbi cases (1-6 chromosomes, layouts from the grammar, options compress x items_per_slot x block_size x zoom modes x "
             "single/two pass) plus malformed inputs (overlap, end beyond the chromosome, start > end, unknown chromosome, chromosome "
             "order, empty) at the first/middle/last chromosome; for every case: the recorded sink trace, EVERY crash point at "
             "operation granularity and byte cuts inside every write but the header operation, a failure injected at EVERY "
             "operation of every kind (seek/write/flush); plus one-chromosome cases (exact trace comparison), multi-chromosome cases above the "
-            "BufWriter capacity, and bigBed cases (entry layouts disjoint/overlapping/nested/identical/zero-length, autoSql variants) judged by the oracle; non-trivial = accepted input with at least 2 values; distinct = distinct case text")
-    CORRESPONDENCE = ("recorded sink trace of BigWigWrite::write / write_multipass = Model/SinkTrace.v trace: exactly (operations, crash-point "
+            "BufWriter capacity; bigBed (single/two pass): cases from the bed grammar (1-5 chromosomes, entry layouts disjoint/overlapping/nested/identical/"
+            "zero-length, rest fields, autoSql none/BED3-like/text/unparsable/multibyte), one-chromosome uncompressed cases (exact trace comparison), refused "
+            "calls (unsorted, start > end, start beyond the chromosome, unknown chromosome, chromosome order, chromosome coming back, empty, NUL in the "
+            "autoSql, refused options); non-trivial = accepted input with at least 2 values; distinct = distinct case text")
+    CORRESPONDENCE = ("recorded sink trace of BigWigWrite::write / write_multipass and of BigBedWrite::write / write_multipass = Model/SinkTrace.v / "
+                      "SinkTraceBed.v trace: exactly (operations, crash-point "
                       "verdicts, fault outcomes) for one-chromosome uncompressed inputs whose regions stay below the BufWriter capacity; "
                       "as coalesced write runs (which region is written when) otherwise; refused inputs: what was written is a prefix of the model's")
     TRUSTED = ["the recording / failing sink and the crash-point replay in harness/src/bin/c14.rs"]
@@ -62,6 +69,75 @@ class C14(Prop):
         else:
             inp = []
         return [kind, o, sizes, inp, qs], "bad-%s-%s" % (how, where)
+
+    def malform_bed(self, rng, c):
+        """turn an accepted bigBed case into a refused call"""
+        kind, o, sizes, inp, qs, cfg, asql = c
+        names = []
+        for it in inp:
+            if it[0] not in names: names.append(it[0])
+        how = rng.choice(["unsorted", "unsorted", "inverted", "beyond", "unknown", "order", "split", "empty", "nul", "options"])
+        if how in ("order", "split") and len(names) < 2:
+            how = rng.choice(["unsorted", "inverted", "beyond"])
+        where = rng.choice(["first", "middle", "last"])
+        nm = {"first": names[0], "middle": names[len(names) // 2], "last": names[-1]}[where]
+        idx = [i for i, it in enumerate(inp) if it[0] == nm]
+        i = {"first": idx[0], "middle": idx[len(idx) // 2], "last": idx[-1]}[rng.choice(["first", "middle", "last"])]
+        inp = [list(x) for x in inp]; o = list(o)
+        ln = [s[1] for s in sizes if s[0] == nm][0]
+        if how == "unsorted":
+            inp.insert(i + 1, [nm, max(0, inp[i][1] - 1 - rng.choice([0, 3])), inp[i][2], inp[i][3]])
+            if inp[i + 1][1] >= inp[i][1]: inp[i][1] = inp[i + 1][1] + 1; inp[i][2] = max(inp[i][2], inp[i][1])
+        elif how == "inverted":
+            inp[i][1], inp[i][2] = inp[i][2] + 3, inp[i][2]
+            for j in range(i + 1, len(inp)):
+                if inp[j][0] == nm and inp[j][1] < inp[i][1]: inp[j][1] = inp[i][1]; inp[j][2] = max(inp[j][2], inp[j][1])
+        elif how == "beyond":
+            for j in range(i, len(inp)):
+                if inp[j][0] == nm: inp[j][1] = ln + j - i; inp[j][2] = max(inp[j][2], inp[j][1])
+        elif how == "unknown":
+            sizes = [s for s in sizes if s[0] != nm]
+        elif how == "order":
+            mine = [x for x in inp if x[0] == nm]; rest = [x for x in inp if x[0] != nm]
+            inp = rest + mine if nm != names[-1] else mine + rest
+            o[6] = 1
+        elif how == "split":
+            other = [x for x in inp if x[0] != nm]; mine = [x for x in inp if x[0] == nm]
+            k = max(1, len(mine) // 2)
+            inp = mine[:k] + other + (mine[k:] or [[nm, mine[-1][1], mine[-1][2], []]])
+            o[6] = 0
+        elif how == "nul":
+            asql = [list(b"table t\x00 \"x\" (int a; \"A\")")]
+        elif how == "options":
+            if rng.random() < 0.5: o[1] = 0
+            else: o[2] = rng.choice([0, 1])
+        else:
+            how = "empty"; inp = []
+        return [kind, o, sizes, inp, qs, cfg, asql], "bad-%s-%s" % (how, where)
+
+    def bed_one(self, rng, tier, i):
+        """one bigBed case; every other one cut down to its first chromosome and uncompressed (exact traces)"""
+        one = (i % 2 == 0)
+        txt, tags = bedgen.bed_case(rng, tier, want=("ranges" if i % 4 >= 2 else "roundtrip"), nqueries=10,
+                                    compress=(0 if one else None))
+        kind, o, sizes, inp, qs, asql, flags = parse_sx(txt)
+        qs = [q for q in qs if q[0] != 7][:24]
+        if one:
+            first = inp[0][0]
+            inp = [it for it in inp if it[0] == first]
+            qs = [q for q in qs if len(q) < 2 or q[1] == first or not isinstance(q[1], list)]
+            tags = [t for t in tags if not t.startswith("chroms=")] + ["chroms=1", "one-chromosome"]
+        # zoom levels are part of what the file advertises: ask for them too
+        levels = (o[5][0] if o[5] else [o[3] * 4 ** k for k in range(min(o[4], 10))])
+        for s_ in [s for s in sizes if any(it[0] == s[0] for it in inp)][:3]:
+            for r in list(levels)[:3]:
+                qs.append([2, s_[0], 0, s_[1], r])
+        threads = rng.choice([2, 0, 4]); inmem = rng.choice([0, 1])
+        c = [10 + kind, o, sizes, inp, qs, [threads, inmem, 0], asql]
+        tags = ["bigBed"] + tags
+        if i % 5 == 4:
+            c, t = self.malform_bed(rng, c); tags = tags + [t]
+        return sx(c), tags + ["threads=%d" % threads, "inmemory=%d" % inmem]
 
     def spill_case(self, rng):
         """several chromosomes whose data together exceed the BufWriter capacity: the destination's buffer
@@ -109,19 +185,9 @@ class C14(Prop):
             threads = rng.choice([2, 0, 4]); inmem = rng.choice([0, 1])
             c.append([threads, inmem, 0])
             yield sx(c), tags + ["threads=%d" % threads, "inmemory=%d" % inmem]
-        # bigBed (same write_info / write_data / write_mid, its own write_pre): no trace model, the oracle judges
-        for i in range(40 if tier == "quick" else 600):
-            txt, tags = bedgen.bed_case(rng, tier, want=("ranges" if i % 2 else "roundtrip"), nqueries=12)
-            c = parse_sx(txt)
-            kind, o, sizes, inp, qs, asql, flags = c
-            qs = [q for q in qs if q[0] != 7][:30]
-            # zoom levels are part of what the file advertises: ask for them too
-            levels = (o[5][0] if o[5] else [o[3] * 4 ** k for k in range(min(o[4], 10))])
-            for s_ in sizes[:3]:
-                for r in list(levels)[:3]:
-                    qs.append([2, s_[0], 0, s_[1], r])
-            threads = rng.choice([2, 0, 4]); inmem = rng.choice([0, 1])
-            yield sx([10 + kind, o, sizes, inp, qs, [threads, inmem, 0], asql]), ["bigBed"] + tags + ["threads=%d" % threads, "inmemory=%d" % inmem]
+        # bigBed (same write_info / write_data / write_mid, its own write_pre: Model/SinkTraceBed.v)
+        for i in range(70 if tier == "quick" else 900):
+            yield self.bed_one(rng, tier, i)
         for i in range(8 if tier == "quick" else 120):
             c = self.spill_case(rng)
             threads = rng.choice([2, 0, 4, 8]); inmem = rng.choice([0, 1])
@@ -142,11 +208,12 @@ class C14(Prop):
         if len(i) != 6:
             return False
         st = self.STATS
-        if m == []:          # bigBed: oracle only
+        bed = (len(m) == 9)     # bigBed: a ninth field, the least number of bytes a refused run has written
+        if bed:
             st["bigbed_cases"] = st.get("bigbed_cases", 0) + 1
-            st["sink_operations"] += len(i[1]); st["crash_points_replayed"] += len(i[3]); st["faults_injected"] += len(i[5])
-            return True
-        if len(m) != 8:
+            if m[1] and m[2] and m[0] == [0]:
+                st["bigbed_exact_trace_cases"] = st.get("bigbed_exact_trace_cases", 0) + 1
+        elif len(m) != 8:
             return False
         st["sink_operations"] += len(i[1]); st["crash_points_replayed"] += len(i[3]); st["faults_injected"] += len(i[5])
         st["torn_header_cuts"] += i[4][0]; st["torn_header_cuts_accepted_and_different"] += i[4][1]
@@ -158,6 +225,12 @@ class C14(Prop):
             return True
         if m[0] != [0]:
             # refused: whatever was written is a prefix of the blank headers + the sections complete before the refusal
+            if bed:
+                # refused options: nothing; refused autoSql: the blank headers; refused input: write_pre and a prefix of
+                # the sections complete before the refusal
+                if len(m[7]) == 0:
+                    return len(i[2]) == 0
+                return len(i[2]) == 1 and i[2][0][0] == 0 and _pfx(i[2][0][1], m[7]) and len(i[2][0][1]) >= m[8]
             if len(i[2]) == 0:
                 return True
             return len(i[2]) == 1 and i[2][0][0] == 0 and _pfx(i[2][0][1], m[7]) and len(i[2][0][1]) >= min(352, len(m[7]))
@@ -199,7 +272,7 @@ class C14(Prop):
                 pm = parse_sx(m); pd = parse_sx(d); pr = parse_sx(r)
             except Exception:
                 continue
-            if len(pm) == 8 and pm[1] and pm[2]:
+            if len(pm) in (8, 9) and pm[1] and pm[2]:
                 n_exact += 1
                 if pd[1] != pr[1]:
                     n_diff += 1
